@@ -498,6 +498,7 @@ void GridGlobal::loadConstructedPoint(const double x[], const std::vector<double
     }else if (result == DynamicConstructorDataGlobal::AddPointResult::tensor_missing){
         dynamic_values->addTensor(wrapper.getLevels(idx).data(), [&](int l)->int{ return wrapper.getNumPoints(l); },
                                   dynamic_values->getMaxTensorWeight() + 1.0);
+        loadConstructedTensors(); // the new tensor can be complete right away, e.g., rules that add one point per level
     }
 }
 void GridGlobal::loadConstructedPoint(const double x[], int numx, const double y[]){
